@@ -753,6 +753,9 @@ end
 /-- every rule names node / mark types the schema has, and every style rule that is neither `ignore` nor
     `clear_mark` names a mark (else `schema.nodes[…]` / `schema.marks[…]` raises KeyError when the rule fires) -/
 def Parser.rulesOk (P : Parser) : Bool :=
+  P.tags.all (fun r => match r.node with
+    | some (some t) => decide (t < P.S.nodes.size)
+    | _ => true) &&
   P.tags.all (fun r => r.node != some none && r.mark != some none) &&
   P.styles.all (fun r => r.ignore || r.clearMark.isSome || (match r.mark with
     | some (some _) => true
